@@ -64,6 +64,10 @@ var stems = func() []string {
 	return out
 }()
 
+// a handle on the first logger's name: a logger that is also reachable by name is still a logger
+// like any other (it must list tags)
+var handleLg0 = log.GetLogger("lg0")
+
 var registered = map[string]*log.Tag{}
 
 func ensureBaseline() {
